@@ -121,6 +121,24 @@ def main(tier=None, replay=None):
             t["data"] = dict(c, section_defects=sec, level_defects=lev)
             if len(ck.cov["samples"]) < 5:
                 ck.sample({"case": label, "section_defects": sec, "level_defects": lev})
+    # history: one CenterManifold object whose degree is raised after it has already converted points must behave like a
+    # freshly built centre manifold of the new degree
+    for key, (system, L, cm, polyH, clmo, EL, g) in list(cms.items()):
+        if key[2] != 4:
+            continue
+        from hiten.system.center import CenterManifold
+        hist = CenterManifold(L, 3)
+        p = 0.05 * np.array([0.6, -0.3, 0.5, 0.4])
+        s3 = np.asarray(hist.to_synodic(p), dtype=float)
+        back3 = np.asarray(hist.to_cm(s3), dtype=float)
+        hist.degree = 4
+        s4 = np.asarray(hist.to_synodic(p), dtype=float)
+        b4 = np.asarray(hist.to_cm(s4), dtype=float)
+        fresh_s = np.asarray(cm.to_synodic(p), dtype=float)
+        fresh_b = np.asarray(cm.to_cm(fresh_s), dtype=float)
+        t = cs.trace(f"{key[0]}|L{key[1]}|history degree 3 -> 4", {"history_matches_fresh": -120}, {"kind": "history", "system": key[0], "point": key[1]})
+        ck.count(("cm-history", key[0], key[1]), True)
+        cs.obs(t, "history_matches_fresh", max(float(np.max(np.abs(s4 - fresh_s))), float(np.max(np.abs(b4 - fresh_b)))))
     cs.decide(key_fn=lambda t, n: f"center-manifold|{t['data']['kind']}|{n}")
     cs.selftest()
     ck.cov["rule"] = ("configurations enumerated by TLC from CMConfigs.tla (system x point x degree x {CM direction class | section "
